@@ -86,6 +86,8 @@ def run(ctx):
         proto = "tls" if tls_only or i % 3 == 2 else "gm"
         if i % 5 == 4:
             proto = "auto_" + proto
+        elif i % 7 == 3:
+            proto += "+gcfc"        # the server hands out a fresh Config per connection through GetConfigForClient
         hist.append({"proto": proto, "cap": cap, "ops": b})
     # the abstract Tamper at every byte of the ticket (thorough) / a seeded sample: connect, tamper(byte), connect
     tam = []
@@ -147,6 +149,9 @@ def run(ctx):
                     probs.append("keys differ between the ends after the handshake (EKM equal %s, data ok %s)" % (g["ekm_equal"], g["data_ok"]))
                 if want and g["ms_known"] and not g["ms_same_sid"]:
                     probs.append("resumed session does not carry the original master secret")
+                npeer = 2 if h["proto"].split("+")[0].endswith("gm") else 1
+                if g["complete"] and g["cli_peers"] != npeer:
+                    probs.append("the client reports %d server certificates on this connection instead of %d" % (g["cli_peers"], npeer))
                 if want and g["srv_saw_cert"] != o["hascert"]:
                     probs.append("peer identity on the resumed session differs from the original (client certificate present: %s, originally %s)" % (g["srv_saw_cert"], o["hascert"]))
             if probs:
